@@ -127,8 +127,16 @@ let prelude () =
     [false; true]) [false; true]) [0; 1; 2]) [false; true]) [false; true];
   (* does X<T...> have a member `type` (SFINAE-friendly traits only) *)
   add "#define Z_HAS_TYPE(ns, tr) template <class... T> constexpr bool ns##_has_##tr = requires { typename ns::tr<T...>::type; };";
-  List.iter (fun tr -> add (sp "Z_HAS_TYPE(etl, %s) Z_HAS_TYPE(std, %s)" tr tr))
+  (* lines tagged /*etl*/ are left out of the translation units that test std alone *)
+  List.iter (fun tr -> add (sp "/*etl*/ Z_HAS_TYPE(etl, %s)" tr); add (sp "Z_HAS_TYPE(std, %s)" tr))
     [ "underlying_type"; "common_type"; "invoke_result"; "common_reference" ];
+  (* identity of a SFINAE-friendly transformation: both have no member type, or both name the same type *)
+  add "/*etl*/ #define Z_AGREES(tr) template <class... T> constexpr bool tr##_agrees = [] { if constexpr (etl_has_##tr<T...> != std_has_##tr<T...>) { return false; } else if constexpr (std_has_##tr<T...>) { return std::is_same_v<typename etl::tr<T...>::type, typename std::tr<T...>::type>; } else { return true; } }();";
+  List.iter (fun tr -> add (sp "/*etl*/ Z_AGREES(%s)" tr)) [ "common_type"; "invoke_result"; "underlying_type" ];
+  (* [dcl.init.list] copy-list-initialisation from {} : the definition of etl::is_implicit_default_constructible *)
+  add "template <class T> void z_take(T);";
+  add "template <class T> constexpr bool z_implicit_default = requires { z_take<T const&>({}); };";
+  add "template <class T> struct z_tmpl { }; template <> struct z_tmpl<char>; struct z_incomplete;";
   add "} // namespace z";
   Buffer.contents b
 
@@ -403,7 +411,12 @@ let emit tier cfgs seed =
       prop_unary;
     if is_complete_object t then
       obl "prop" "alignment_of" key (sp "etl::alignment_of_v<%s> == std::alignment_of_v<%s> && etl::alignment_of<%s>::value == alignof(%s)" r r r r);
-    List.iter (fun c -> obl "prop" ("concept " ^ c) key (sp "etl::%s<%s> == std::%s<%s>" c r c r)) prop_concepts_unary)
+    List.iter (fun c -> obl "prop" ("concept " ^ c) key (sp "etl::%s<%s> == std::%s<%s>" c r c r)) prop_concepts_unary;
+    obl "prop" "common_type<T>" key (sp "z::common_type_agrees<%s>" r);
+    obl "prop" "invoke_result<F>" key (sp "z::invoke_result_agrees<%s> && etl::is_invocable_v<%s> == std::is_invocable_v<%s> && etl::invocable<%s> == std::invocable<%s>" r r r r r);
+    if is_complete_object t && not (std_is_array t) then
+      obl "prop" "is_implicit_default_constructible" key
+        (sp "etl::is_implicit_default_constructible_v<%s> == (std::is_default_constructible_v<%s> && z::z_implicit_default<%s>)" r r r))
     types;
   (* ---- binary traits: ordered pairs over a core set *)
   let pair_core =
@@ -418,6 +431,8 @@ let emit tier cfgs seed =
                  Union (List.nth union_zoo 1); MemPtr (c_data, int_); MemPtr (c_data, fn Void []);
                  Arith ALDouble; Arith AChar8; Arith AChar16; Arith ASChar; Arith AUShort; Arith ALong;
                  Arith AULLong ] in
+    (* quick tier: two thirds of the core set, rotating with the seed (all ordered pairs of the rest) *)
+    let want = if tier = "quick" then List.filteri (fun i _ -> i < 6 || i mod 3 <> seed mod 3) want else want in
     List.filter (fun t -> Hashtbl.mem idx (cxx t)) want in
   let pairs = List.concat_map (fun a -> List.map (fun b -> (a, b)) pair_core) pair_core in
   List.iter (fun (a, b) ->
@@ -445,13 +460,13 @@ let emit tier cfgs seed =
      | None, Some y -> line [ "M"; "common_type"; key; "-"; cxx y ]
      | _ -> ());
     (* outside the model: existence and identity of common_type, and the relation traits *)
-    obl "prop" "common_type" key (sp "z::etl_has_common_type<%s, %s> == z::std_has_common_type<%s, %s>" ra rb ra rb);
+    obl "prop" "common_type" key (sp "z::common_type_agrees<%s, %s>" ra rb);
     List.iter (fun tr ->
         obl "prop" tr key (sp "etl::%s_v<%s, %s> == std::%s_v<%s, %s> && etl::%s<%s, %s>::value == std::%s_v<%s, %s>" tr ra rb tr ra rb tr ra rb tr ra rb))
       prop_binary;
     obl "prop" "is_invocable" key (sp "etl::is_invocable_v<%s, %s> == std::is_invocable_v<%s, %s>" ra rb ra rb);
     obl "prop" "is_invocable_r" key (sp "etl::is_invocable_r_v<%s, %s> == std::is_invocable_r_v<%s, %s>" ra rb ra rb);
-    obl "prop" "invoke_result" key (sp "z::etl_has_invoke_result<%s, %s> == z::std_has_invoke_result<%s, %s>" ra rb ra rb);
+    obl "prop" "invoke_result" key (sp "z::invoke_result_agrees<%s, %s>" ra rb);
     List.iter (fun c -> obl "prop" ("concept " ^ c) key (sp "etl::%s<%s, %s> == std::%s<%s, %s>" c ra rb c ra rb)) prop_concepts_binary)
     pairs;
   (* ---- smallest_size_t *)
@@ -489,6 +504,49 @@ let emit tier cfgs seed =
       "count", "etl::meta::count_v<int, etl::meta::list<int, char, int>> == 2 && etl::meta::count_v<long, etl::meta::list<int, char>> == 0";
       "contains", "etl::meta::contains_v<char, etl::meta::list<int, char>> && !etl::meta::contains_v<long, etl::meta::list<int, char>> && !etl::meta::contains_v<int, etl::meta::list<>>";
       "index_of", "etl::meta::index_of_v<char, etl::meta::list<int, char, long>> == 1 && etl::meta::index_of_v<int, etl::meta::list<int, char, long>> == 0" ];
+  (* ---- a fixed family of classes related by inheritance (the generated classes have no bases):
+          public, private, virtual, ambiguous (diamond without virtual) and indirect bases *)
+  line [ "H"; "namespace zb { struct B { int b; }; struct D : B { }; struct P : private B { }; struct V : virtual B { }; struct A1 : B { }; struct A2 : B { }; struct M : A1, A2 { }; struct I : D { }; struct Poly { virtual ~Poly(); }; struct PD : Poly { }; union U { int u; }; struct Conv { operator B() const; operator int() const noexcept; }; struct Expl { explicit Expl(B const&); Expl(int) noexcept; }; }" ];
+  let fam = [ "zb::B"; "zb::D"; "zb::P"; "zb::V"; "zb::A1"; "zb::M"; "zb::I"; "zb::Poly"; "zb::PD"; "zb::U"; "zb::Conv"; "zb::Expl";
+              "zb::D const"; "zb::B volatile"; "int"; "void" ] in
+  List.iter (fun x -> List.iter (fun y ->
+      let key = x ^ " ; " ^ y in
+      List.iter (fun tr ->
+          obl "prop" (tr ^ " (inheritance)") key (sp "etl::%s_v<%s, %s> == std::%s_v<%s, %s>" tr x y tr x y))
+        [ "is_base_of"; "is_convertible"; "is_nothrow_convertible"; "is_constructible"; "is_nothrow_constructible"; "is_assignable"; "is_same" ];
+      List.iter (fun c -> obl "prop" ("concept " ^ c ^ " (inheritance)") key (sp "etl::%s<%s, %s> == std::%s<%s, %s>" c x y c x y))
+        [ "derived_from"; "convertible_to"; "constructible_from"; "same_as" ];
+      if x <> "void" && y <> "void" then begin
+        obl "prop" "pointer conversion (inheritance)" key
+          (sp "etl::is_convertible_v<%s*, %s*> == std::is_convertible_v<%s*, %s*> && etl::is_constructible_v<%s&, %s&> == std::is_constructible_v<%s&, %s&> && etl::is_assignable_v<%s*&, %s*> == std::is_assignable_v<%s*&, %s*>" x y x y x y x y x y x y);
+        obl "prop" "common_type (inheritance)" key (sp "z::common_type_agrees<%s*, %s*> && z::common_type_agrees<%s, %s>" x y x y)
+      end) fam) fam;
+  List.iter (fun x ->
+      List.iter (fun tr -> obl "prop" (tr ^ " (inheritance)") x (sp "etl::%s_v<%s> == std::%s_v<%s>" tr x tr x))
+        [ "is_polymorphic"; "is_empty"; "is_aggregate"; "is_standard_layout"; "is_trivially_copyable"; "has_virtual_destructor";
+          "is_abstract"; "is_final"; "is_class"; "is_union"; "is_default_constructible"; "is_trivially_destructible" ])
+    (List.filter (fun x -> x <> "void" && x <> "int") fam);
+  (* ---- aligned_storage<Len>: "default-alignment shall be the most stringent alignment requirement for any
+          C++ object type whose size is no greater than Len" ([meta.trans.other]); libstdc++ over-aligns (16 for
+          every Len), so the obligation is the standard's wording over the fundamental object types *)
+  line [ "H"; "namespace z { template <std::size_t Len> constexpr std::size_t default_align = [] { std::size_t a = 1; auto f = [&a](std::size_t s, std::size_t al) { if (s <= Len && al > a) { a = al; } }; f(sizeof(short), alignof(short)); f(sizeof(char16_t), alignof(char16_t)); f(sizeof(wchar_t), alignof(wchar_t)); f(sizeof(int), alignof(int)); f(sizeof(long), alignof(long)); f(sizeof(long long), alignof(long long)); f(sizeof(void*), alignof(void*)); f(sizeof(void (*)()), alignof(void (*)())); f(sizeof(float), alignof(float)); f(sizeof(double), alignof(double)); f(sizeof(long double), alignof(long double)); f(sizeof(int zb::B::*), alignof(int zb::B::*)); f(sizeof(void (zb::B::*)()), alignof(void (zb::B::*)())); return a; }(); }" ];
+  List.iter (fun len ->
+      obl "prop" "aligned_storage default alignment" (string_of_int len)
+        (sp "alignof(etl::aligned_storage_t<%d>) >= z::default_align<%d> && sizeof(etl::aligned_storage_t<%d>) >= %d && alignof(etl::aligned_storage_t<%d>) <= alignof(std::max_align_t) && alignof(std::aligned_storage_t<%d>) >= z::default_align<%d>" len len len len len len len))
+    [ 1; 2; 3; 4; 5; 7; 8; 9; 12; 15; 16; 17; 24; 32; 64 ];
+  (* ---- variadic / ternary forms, etl extensions, ratio typedefs *)
+  List.iter (fun (k, c) -> obl "prop" "misc" k c)
+    [ "common_type 3", "z::common_type_agrees<char, short, double> && z::common_type_agrees<int, unsigned, long> && z::common_type_agrees<int*, int const*, void*> && z::common_type_agrees<int, int*, long> && z::common_type_agrees<> && z::common_type_agrees<float, long long, unsigned char, bool>";
+      "invoke_result n-ary", "z::invoke_result_agrees<int (*)(int, char), long, double> && z::invoke_result_agrees<int (*)(int, char), long> && z::invoke_result_agrees<void (&)(), int> && z::invoke_result_agrees<void (&)()> && z::invoke_result_agrees<double (*)(int&), int> && z::invoke_result_agrees<double (*)(int&), int&> && z::invoke_result_agrees<int (*)(...) noexcept, int, char, void*>";
+      "is_invocable n-ary", "etl::is_invocable_v<int (*)(int, char), long, double> == std::is_invocable_v<int (*)(int, char), long, double> && etl::is_invocable_v<int (*)(int&), int> == std::is_invocable_v<int (*)(int&), int> && etl::is_invocable_r_v<long, int (*)(int, char), int, int> == std::is_invocable_r_v<long, int (*)(int, char), int, int> && etl::is_invocable_r_v<void*, int (*)(int), int> == std::is_invocable_r_v<void*, int (*)(int), int> && etl::is_invocable_r_v<void, int (*)(int), int> == std::is_invocable_r_v<void, int (*)(int), int>";
+      "relation concepts", "etl::relation<bool (*)(int, long), int, long> == std::relation<bool (*)(int, long), int, long> && etl::relation<bool (*)(int, int*), int, int*> == std::relation<bool (*)(int, int*), int, int*> && etl::equivalence_relation<bool (*)(int, int), int, int> == std::equivalence_relation<bool (*)(int, int), int, int> && etl::strict_weak_order<bool (*)(int, int), int, int> == std::strict_weak_order<bool (*)(int, int), int, int> && etl::strict_weak_order<void (*)(int, int), int, int> == std::strict_weak_order<void (*)(int, int), int, int> && etl::predicate<bool (*)(int, char), int, char> == std::predicate<bool (*)(int, char), int, char> && etl::regular_invocable<int (*)(int, char), int, char> == std::regular_invocable<int (*)(int, char), int, char>";
+      "unwrap_reference", "std::is_same_v<etl::unwrap_reference_t<int>, int> && std::is_same_v<etl::unwrap_reference_t<int const&>, int const&> && std::is_same_v<etl::unwrap_ref_decay_t<int const&>, int> && std::is_same_v<etl::unwrap_ref_decay_t<int[3]>, int*> && std::is_same_v<etl::unwrap_ref_decay_t<void()>, void (*)()> && !etl::is_reference_wrapper_v<int> && !etl::is_reference_wrapper_v<int&>";
+      "is_specialized", "etl::is_specialized_v<z::z_tmpl, int> && !etl::is_specialized_v<z::z_tmpl, char>";
+      "always_false / index_constant", "!etl::always_false<int, char> && !etl::always_false<> && std::is_same_v<etl::index_constant<3>, etl::integral_constant<etl::size_t, 3>> && etl::index_v<5>() == 5";
+      "declval", "std::is_same_v<decltype(etl::declval<int>()), int&&> && std::is_same_v<decltype(etl::declval<int&>()), int&> && std::is_same_v<decltype(etl::declval<void>()), void> && std::is_same_v<decltype(etl::declval<int const[2]>()), int const(&&)[2]> && noexcept(etl::declval<int>())";
+      "ratio SI typedefs", "std::ratio_equal_v<std::ratio<etl::atto::num, etl::atto::den>, std::atto> && std::ratio_equal_v<std::ratio<etl::femto::num, etl::femto::den>, std::femto> && std::ratio_equal_v<std::ratio<etl::pico::num, etl::pico::den>, std::pico> && std::ratio_equal_v<std::ratio<etl::nano::num, etl::nano::den>, std::nano> && std::ratio_equal_v<std::ratio<etl::micro::num, etl::micro::den>, std::micro> && std::ratio_equal_v<std::ratio<etl::milli::num, etl::milli::den>, std::milli> && std::ratio_equal_v<std::ratio<etl::centi::num, etl::centi::den>, std::centi> && std::ratio_equal_v<std::ratio<etl::deci::num, etl::deci::den>, std::deci> && std::ratio_equal_v<std::ratio<etl::deca::num, etl::deca::den>, std::deca> && std::ratio_equal_v<std::ratio<etl::hecto::num, etl::hecto::den>, std::hecto> && std::ratio_equal_v<std::ratio<etl::kilo::num, etl::kilo::den>, std::kilo> && std::ratio_equal_v<std::ratio<etl::mega::num, etl::mega::den>, std::mega> && std::ratio_equal_v<std::ratio<etl::giga::num, etl::giga::den>, std::giga> && std::ratio_equal_v<std::ratio<etl::tera::num, etl::tera::den>, std::tera> && std::ratio_equal_v<std::ratio<etl::peta::num, etl::peta::den>, std::peta> && std::ratio_equal_v<std::ratio<etl::exa::num, etl::exa::den>, std::exa>";
+      "is_constant_evaluated", "etl::is_constant_evaluated()";
+    ];
   (* ---- ill-formed instantiations (each its own TU): expect 1 = compiles, 0 = rejected *)
   let neg leg trait key expect snippet = line [ "N"; leg; trait; key; (if expect then "1" else "0"); snippet ] in
   List.iter (fun (nm, t) ->
@@ -512,7 +570,7 @@ let emit tier cfgs seed =
       "negation", "etl::negation_v<std::false_type> && !etl::negation_v<std::true_type> && !etl::negation<std::integral_constant<int, 3>>::value";
       "bool_constant", "std::is_same_v<etl::true_type::value_type, bool> && etl::true_type::value && !etl::false_type{} && etl::bool_constant<true>{}() && std::is_same_v<etl::integral_constant<int, 3>::type, etl::integral_constant<int, 3>> && etl::integral_constant<long, 7>::value == 7";
       "enable_if", "std::is_same_v<etl::enable_if_t<true, int>, int> && std::is_same_v<etl::enable_if_t<true>, void> && std::is_same_v<etl::void_t<int, char>, void>";
-      "aligned_storage", "sizeof(etl::aligned_storage_t<13, 4>) >= 13 && alignof(etl::aligned_storage_t<13, 4>) == 4 && alignof(etl::aligned_storage_t<16>) == alignof(std::aligned_storage_t<16>) && alignof(etl::aligned_storage_t<3>) == alignof(std::aligned_storage_t<3>) && alignof(etl::aligned_storage_t<1>) == alignof(std::aligned_storage_t<1>) && alignof(etl::aligned_storage_t<8>) == alignof(std::aligned_storage_t<8>)";
+      "aligned_storage", "sizeof(etl::aligned_storage_t<13, 4>) >= 13 && alignof(etl::aligned_storage_t<13, 4>) == 4 && sizeof(etl::aligned_storage_t<5, 8>) >= 5 && alignof(etl::aligned_storage_t<5, 8>) == 8 && alignof(etl::aligned_storage_t<16>) == alignof(std::aligned_storage_t<16>)";
       "aligned_union", "sizeof(etl::aligned_union_t<3, int, double>) >= 8 && alignof(etl::aligned_union_t<3, int, double>) == alignof(double) && etl::aligned_union<0, char, long double>::alignment_value == std::aligned_union<0, char, long double>::alignment_value && sizeof(etl::aligned_union_t<40, char>) >= 40";
     ];
   print_string (Buffer.contents out)
